@@ -4,6 +4,7 @@ import (
 	"encoding/json"
 	"fmt"
 	"math/rand"
+	"net/http"
 	"sort"
 	"strings"
 	"sync"
@@ -453,6 +454,56 @@ func concurrentReplay(r *mon.Run, c *Case, b *Built, seq []Outcome) {
 
 var caseSeq int
 
+// escapeAll spells every byte of a path except the slashes as %XX.
+func escapeAll(p string) string {
+	var sb strings.Builder
+	for i := 0; i < len(p); i++ {
+		if p[i] == '/' {
+			sb.WriteByte('/')
+		} else {
+			fmt.Fprintf(&sb, "%%%02X", p[i])
+		}
+	}
+	return sb.String()
+}
+
+var transportVariantNames = []string{"raw-path-escaped", "http2", "http10", "irrelevant-headers", "host-with-port", "lowercase-header-keys", "request-uri-absolute"}
+
+// transportVariants re-sends a request in spellings that carry the same verb
+// and the same decoded path: the routing outcome must be the same.
+func transportVariants(r *mon.Run, c *Case, b *Built, rq Req, o0 Outcome, k int) {
+	vi := k % len(transportVariantNames)
+	name := transportVariantNames[vi]
+	mod := func(req *http.Request) {
+		switch name {
+		case "raw-path-escaped":
+			req.URL.RawPath = escapeAll(req.URL.Path)
+			req.RequestURI = req.URL.RawPath
+		case "http2":
+			req.Proto, req.ProtoMajor, req.ProtoMinor = "HTTP/2.0", 2, 0
+		case "http10":
+			req.Proto, req.ProtoMajor, req.ProtoMinor = "HTTP/1.0", 1, 0
+		case "irrelevant-headers":
+			req.Header["Accept"] = []string{"*/*"}
+			req.Header["User-Agent"] = []string{"verif/1"}
+			req.Header["Accept-Language"] = []string{"de, en;q=0.5"}
+			req.Header["X-Forwarded-For"] = []string{"198.51.100.7"}
+		case "host-with-port":
+			req.Host = "Verif.Test:8443"
+		case "lowercase-header-keys":
+			req.Header["accept"] = []string{"application/json"}
+		case "request-uri-absolute":
+			req.RequestURI = "http://verif.test" + req.URL.Path
+		}
+	}
+	o := b.DoWith(rq.Verb, rq.Path, "", nil, mod)
+	r.Count("transport_variant_comparisons", 1)
+	if !o.Same(o0) {
+		r.Violate("transport-variant:"+name+":"+outcomeClass(o0)+"-vs-"+outcomeClass(o),
+			fmt.Sprintf("%s %s: plain HTTP/1.1 request [%s], same verb and path as %s [%s]", rq.Verb, rq.Path, o0, name, o), oneReq(c, rq))
+	}
+}
+
 func runCase(r *mon.Run, c *Case, prules []ParsedRule, built []*Built) {
 	caseSeq++
 	var seq []Outcome
@@ -461,9 +512,16 @@ func runCase(r *mon.Run, c *Case, prules []ParsedRule, built []*Built) {
 			concurrentReplay(r, c, built[0], seq)
 		}
 	}()
-	for _, rq := range c.Reqs {
+	for qi, rq := range c.Reqs {
 		o0 := built[0].Do(rq.Verb, rq.Path, "", nil)
 		seq = append(seq, o0)
+		if r.ReplayMode {
+			for k := range transportVariantNames {
+				transportVariants(r, c, built[0], rq, o0, k)
+			}
+		} else if (caseSeq+qi)%5 == 0 {
+			transportVariants(r, c, built[0], rq, o0, (caseSeq+qi)/5)
+		}
 		switch c.Prop {
 		case "C01":
 			checkC01(r, c, prules, rq, o0)
